@@ -149,7 +149,11 @@ class UTPM(Ring, RawAlgorithmsMixIn):
         if isinstance(rhs, UTPM):
             if not isinstance(sl, tuple):
                 sl = (sl,)
-            x_data, y_data = UTPM._broadcast_arrays(self.data.__getitem__((slice(None),slice(None)) + sl), rhs.data)
+            target = self.data.__getitem__((slice(None),slice(None)) + sl)
+            x_data, y_data = UTPM._broadcast_arrays(target, rhs.data)
+            if x_data.size != target.size:
+                # the right hand side does not fit: broadcasting the TARGET would write several values into one slot
+                raise ValueError('could not broadcast input of shape %s into shape %s'%(str(rhs.data.shape), str(target.shape)))
             return x_data.__setitem__(Ellipsis, y_data)
         else:
             if not isinstance(sl, tuple):
